@@ -3,6 +3,7 @@ import P2.Drv.C14
 import P2.Drv.C13
 import P2.Drv.C12
 import P2.Drv.C15
+import P2.Drv.C05
 /- p2driver: one request per line (`<prop> <op> <nat args…>`), one answer per line. -/
 open P2.Drv
 
@@ -17,6 +18,7 @@ def dispatch (line : String) : String :=
         else if prop = "c13" then C13.handle op ns
         else if prop = "c12" then C12.handle op ns
         else if prop = "c15" then C15.handle op ns
+        else if prop = "c05" then C05.handle op ns
         else none
       r.getD "BAD-OP"
   | _ => "BAD-LINE"
